@@ -23,7 +23,9 @@ const ASCII_WORDS: [&str; 24] = [
 ];
 /// names that mean something to some layer of some stack (registered JWT / VC claim names, JSONPath and JSON Pointer syntax,
 /// URL escapes): to this library they are ordinary member names
-pub const NOTABLE_NAMES: [&str; 52] = [
+pub const NOTABLE_NAMES: [&str; 68] = [
+    // the reserved and registered names in another letter case are ordinary names
+    "_SD", "_Sd", "_sD", "_SD_ALG", "_Sd_Alg", "ISS", "Iss", "EXP", "Exp", "IAT", "CNF", "Cnf", "Aud", "SUB", "NBF", "Jwk",
     "x\"_sd", "said \"...", "\"_sd\":", "_sd\"", "..", "_sd_",
     // names that merely begin or end like a reserved or registered name
     "_sdk_version", "_sd_card", "_sdx", "_sd_algx", "_sd_al", "....", "...and more", "... ", " ...", "\u{2026}", "exp_", "issuer", "iat2", "cnf_", "a", "ab",
